@@ -99,7 +99,8 @@ def _gen_of(r):
                 mlen += 1
             elif m == 'extend':
                 vs = [_elem_value(r, elem) for _ in range(r.randrange(0, 4))]
-                ops.append(['extend', vs])
+                # any iterable will do for list.extend: a list, a tuple, a one-shot iterator, a generator
+                ops.append(['extend', vs, r.choice(['list', 'list', 'tuple', 'iter', 'gen'])])
                 mlen += len(vs)
             elif m == 'setitem':
                 ops.append(['setitem', r.randrange(-mlen, mlen + 1) if mlen else 0, _elem_value(r, elem),
@@ -513,7 +514,15 @@ class OfRun(object):
                     o.append(self.elem_arg(op[1], op[2]))
                     self.m = mlist + [op[1]]
                 elif k == 'extend':
-                    o.extend([self.elem_obj(v) for v in op[1]])
+                    batch = [self.elem_obj(v) for v in op[1]]
+                    form = op[2] if len(op) > 2 else 'list'
+                    if form == 'tuple':
+                        batch = tuple(batch)
+                    elif form == 'iter':
+                        batch = iter(batch)
+                    elif form == 'gen':
+                        batch = (x_ for x_ in batch)
+                    o.extend(batch)
                     self.m = mlist + list(op[1])
                 elif k == 'setitem':
                     i = op[1]
